@@ -4,6 +4,7 @@ import (
 	"errors"
 	"fmt"
 	"io"
+	"math/rand"
 	"sort"
 	"strings"
 
@@ -157,86 +158,146 @@ func newHost(c *Case, texts []string) (h *host, err error) {
 	}
 	h.dr = dr
 	for name, kind := range c.Funcs {
-		name := name
-		switch kind {
-		case "id":
-			dr.AddFunction(name, func(args []*variable.Value) (*variable.Value, error) {
-				h.fcalls = append(h.fcalls, callRec{name, valsOf(args)})
-				if len(args) != 1 {
-					return nil, fmt.Errorf("%s expects exactly one argument", name)
-				}
-				return args[0], nil
-			})
-		case "boom":
-			dr.AddFunction(name, func(args []*variable.Value) (*variable.Value, error) {
-				h.fcalls = append(h.fcalls, callRec{name, valsOf(args)})
-				return nil, errBoom
-			})
-		case "noret":
-			dr.AddFunction(name, func(args []*variable.Value) (*variable.Value, error) {
-				h.fcalls = append(h.fcalls, callRec{name, valsOf(args)})
-				return nil, nil
-			})
-		case "bump":
-			// a host function that WRITES a variable through the storer while the expression that calls it
-			// is being evaluated: $x += 1, returns the new value (see EffStore in spec/YarnExpr.tla)
-			dr.AddFunction(name, func(args []*variable.Value) (*variable.Value, error) {
-				h.fcalls = append(h.fcalls, callRec{name, valsOf(args)})
-				if len(args) != 0 {
-					return nil, fmt.Errorf("%s takes no argument", name)
-				}
-				if h.storer == nil {
-					return nil, fmt.Errorf("%s needs a host storer", name)
-				}
-				v, ok := h.storer.GetValue("x")
-				if !ok || v.Number == nil {
-					return nil, fmt.Errorf("%s: $x is not a number", name)
-				}
-				n := *v.Number + 1
-				h.storer.SetNumberValue("x", n)
-				return variable.NewNumber(n), nil
-			})
-		case "idstr": // converted functions whose parameters are named types
-			if err := dr.ConvertAndAddFunction(name, func(m hostMood) string { return string(m) }); err != nil {
-				return nil, fmt.Errorf("registration of %s refused: %w", name, err)
-			}
-		case "idbool":
-			if err := dr.ConvertAndAddFunction(name, func(f hostFlag) bool { return bool(f) }); err != nil {
-				return nil, fmt.Errorf("registration of %s refused: %w", name, err)
-			}
-		case "idint":
-			if err := dr.ConvertAndAddFunction(name, func(n hostCount) int { return int(n) }); err != nil {
-				return nil, fmt.Errorf("registration of %s refused: %w", name, err)
-			}
+		if err := h.registerFunc(name, kind); err != nil {
+			return nil, err
 		}
 	}
 	for name, kind := range c.Cmds {
-		name := name
-		switch kind {
-		case "done":
-			dr.AddCommand(name, func(args []*variable.Value) <-chan error {
-				h.ccalls = append(h.ccalls, callRec{name, valsOf(args)})
-				ch := make(chan error, 1)
-				ch <- nil
-				return ch
-			})
-		case "fail":
-			dr.AddCommand(name, func(args []*variable.Value) <-chan error {
-				h.ccalls = append(h.ccalls, callRec{name, valsOf(args)})
-				ch := make(chan error, 1)
-				ch <- errCmd
-				return ch
-			})
-		case "pend":
-			dr.AddCommand(name, func(args []*variable.Value) <-chan error {
-				h.ccalls = append(h.ccalls, callRec{name, valsOf(args)})
-				ch := make(chan error, 1)
-				h.pending = ch
-				return ch
-			})
-		}
+		h.registerCmd(name, kind)
 	}
 	return h, nil
+}
+
+// registerFunc registers (or replaces) the host function `name` with the behaviour class `kind`.
+func (h *host) registerFunc(name, kind string) error {
+	dr := h.dr
+	switch kind {
+	case "id":
+		dr.AddFunction(name, func(args []*variable.Value) (*variable.Value, error) {
+			h.fcalls = append(h.fcalls, callRec{name, valsOf(args)})
+			if len(args) != 1 {
+				return nil, fmt.Errorf("%s expects exactly one argument", name)
+			}
+			return args[0], nil
+		})
+	case "boom":
+		dr.AddFunction(name, func(args []*variable.Value) (*variable.Value, error) {
+			h.fcalls = append(h.fcalls, callRec{name, valsOf(args)})
+			return nil, errBoom
+		})
+	case "noret":
+		dr.AddFunction(name, func(args []*variable.Value) (*variable.Value, error) {
+			h.fcalls = append(h.fcalls, callRec{name, valsOf(args)})
+			return nil, nil
+		})
+	case "bump":
+		// a host function that WRITES a variable through the storer while the expression that calls it
+		// is being evaluated: $x += 1, returns the new value (see EffStore in spec/YarnExpr.tla)
+		dr.AddFunction(name, func(args []*variable.Value) (*variable.Value, error) {
+			h.fcalls = append(h.fcalls, callRec{name, valsOf(args)})
+			if len(args) != 0 {
+				return nil, fmt.Errorf("%s takes no argument", name)
+			}
+			if h.storer == nil {
+				return nil, fmt.Errorf("%s needs a host storer", name)
+			}
+			v, ok := h.storer.GetValue("x")
+			if !ok || v.Number == nil {
+				return nil, fmt.Errorf("%s: $x is not a number", name)
+			}
+			n := *v.Number + 1
+			h.storer.SetNumberValue("x", n)
+			return variable.NewNumber(n), nil
+		})
+	case "idstr": // converted functions whose parameters are named types
+		if err := dr.ConvertAndAddFunction(name, func(m hostMood) string { return string(m) }); err != nil {
+			return fmt.Errorf("registration of %s refused: %w", name, err)
+		}
+	case "idbool":
+		if err := dr.ConvertAndAddFunction(name, func(f hostFlag) bool { return bool(f) }); err != nil {
+			return fmt.Errorf("registration of %s refused: %w", name, err)
+		}
+	case "idint":
+		if err := dr.ConvertAndAddFunction(name, func(n hostCount) int { return int(n) }); err != nil {
+			return fmt.Errorf("registration of %s refused: %w", name, err)
+		}
+	}
+	return nil
+}
+
+// registerCmd registers (or replaces) the raw command handler `name` of behaviour class `kind`.
+func (h *host) registerCmd(name, kind string) {
+	dr := h.dr
+	switch kind {
+	case "done":
+		dr.AddCommand(name, func(args []*variable.Value) <-chan error {
+			h.ccalls = append(h.ccalls, callRec{name, valsOf(args)})
+			ch := make(chan error, 1)
+			ch <- nil
+			return ch
+		})
+	case "fail":
+		dr.AddCommand(name, func(args []*variable.Value) <-chan error {
+			h.ccalls = append(h.ccalls, callRec{name, valsOf(args)})
+			ch := make(chan error, 1)
+			ch <- errCmd
+			return ch
+		})
+	case "pend":
+		dr.AddCommand(name, func(args []*variable.Value) <-chan error {
+			h.ccalls = append(h.ccalls, callRec{name, valsOf(args)})
+			ch := make(chan error, 1)
+			h.pending = ch
+			return ch
+		})
+	}
+}
+
+// rebind: AddFunction ("f") / AddCommand ("c") between two calls.
+func (h *host) rebind(what, name, kind string) {
+	guarded(func() {
+		if what == "f" {
+			h.registerFunc(name, kind)
+		} else {
+			h.registerCmd(name, kind)
+		}
+	})
+}
+
+// bystander is another runner alive in the same process while a runner is being observed.
+type bystander struct {
+	h     *host
+	rnd   *rand.Rand
+	nopts int
+}
+
+func newBystander(c *Case, rnd *rand.Rand) *bystander {
+	h, err := newHost(c, renderCase(c, canonicalLayout()))
+	if err != nil || h == nil {
+		return nil
+	}
+	return &bystander{h: h, rnd: rand.New(rand.NewSource(rnd.Int63()))}
+}
+
+// poke lets the bystander take a step (sometimes).
+func (b *bystander) poke() {
+	if b == nil || b.rnd.Intn(2) == 0 {
+		return
+	}
+	if b.h.pending != nil {
+		b.h.complete(false)
+	}
+	choice := 0
+	if b.nopts > 0 {
+		choice = b.rnd.Intn(b.nopts)
+	}
+	obs := b.h.next(choice)
+	b.nopts = 0
+	if obs.Out["k"] == "opts" {
+		if o, ok := obs.Out["opts"].([]any); ok {
+			b.nopts = len(o)
+		}
+	}
 }
 
 // stepObs is what one Next call showed.
